@@ -501,9 +501,11 @@ class XInterp(Interp):
     def fresh_like(self, v, name):
         ctx = self.ctx
         if isinstance(v, DictV):
-            ks, vs = v.dom.sort(), v.val.sort()
-            return DictV(z3.Const(ctx.fresh_name(name + ".dom"), ks), z3.Const(ctx.fresh_name(name + ".val"), vs),
-                         v.key_t, v.val_t, None, v.cls, v.missing)
+            # havoc IN PLACE: the loop mutates this very object (aliases -- a parameter, `self` -- see the same new contents)
+            v.dom = z3.Const(ctx.fresh_name(name + ".dom"), v.dom.sort())
+            v.val = z3.Const(ctx.fresh_name(name + ".val"), v.val.sort())
+            v.order = None
+            return v
         if isinstance(v, (GaussV, complex)):
             return GaussV(z3.Int(ctx.fresh_name(name + ".re")), z3.Int(ctx.fresh_name(name + ".im")))
         if isinstance(v, EnumV):
